@@ -4,6 +4,7 @@ import io
 import math
 import os
 import tempfile
+from fractions import Fraction
 
 from common import CorrResult, compare_with_model, rng_for
 from oracle import OracleResult
@@ -124,7 +125,23 @@ def gen_cases(seed, tier):
             cases.append(('real', s, c))
     # the model's ceiling is exact; the code's float ceiling is claimed (and compared) below 2**52
     # (S3's object limit is 5 TiB < 2**43)
-    return [(k, s, c) for (k, s, c) in cases if s < 2 ** 52 and c < 2 ** 52]
+    # float-directed cases: operands of every magnitude below 2**53, quotients next to integers and to
+    # rounding ties (the model's fdiv is compared with CPython's quotient bit for bit)
+    n_float = 250 if quick else 4000
+    for _ in range(n_float):
+        ka, kb = rng.randrange(1, 54), rng.randrange(1, 54)
+        a = rng.randrange(2 ** (ka - 1), 2 ** ka)
+        b = rng.randrange(2 ** (kb - 1), 2 ** kb)
+        cases.append(('float', a, b))
+        q = rng.randrange(1, 2 ** rng.randrange(1, 30))
+        if q * b + 1 < 2 ** 53:
+            cases.append(('float', q * b + rng.choice((-1, 0, 1)), b))
+    for a, b in ((2 ** 53 - 1, 1), (2 ** 53 - 1, 2), (2 ** 53 - 1, 3), (2 ** 53 - 1, 2 ** 53 - 1), (1, 2 ** 53 - 1),
+                 (2 ** 53 - 2, 2 ** 53 - 1), (2 ** 52 + 1, 2), (2 ** 52 + 3, 4), (3 * 2 ** 51 + 1, 2 ** 52 - 1)):
+        cases.append(('float', a, b))
+    # the model's ceiling is exact; the code's float ceiling is proved equal to it (C14.float_ceil_exact)
+    # and compared below 2**53 (S3's object limit is 5 TiB < 2**43)
+    return [(k, s, c) for (k, s, c) in cases if 0 <= s < 2 ** 53 and c < 2 ** 53]
 
 
 def corr(seed, tier):
@@ -135,6 +152,17 @@ def corr(seed, tier):
         for kind, size, c in gen_cases(seed, tier):
             ops = []
             ops.append(('plan ceil %d %d' % (size, c), _impl_ceil(size, c)))
+            if c > 0:
+                # the float quotient the code forms, exactly, and its ceiling
+                fq = Fraction(size / float(c))
+                ops.append(('plan fdiv %d %d' % (size, c), '%d/%d' % (fq.numerator, fq.denominator)))
+                ops.append(('plan fceil %d %d' % (size, c), _impl_ceil(size, c)))
+                res.hit('fdiv:' + ('exact' if fq == Fraction(size, c) else 'rounded'))
+            if kind == 'float':
+                res.note_case((size, c), fq != Fraction(size, c), {'size': size, 'chunk': c, 'ops': [o for o, _ in ops]})
+                res.hit('kind:float')
+                cases_out.append(({'kind': kind, 'size': size, 'chunk': c}, ops))
+                continue
             if c > 0:
                 n = int(math.ceil(size / float(c)))
             else:
